@@ -409,6 +409,23 @@ func mapLoopOrderSensitive(p *Prog, fn *ssa.Function, rg *ssa.Range) string {
 			return fmt.Sprintf("a value (%s) is carried across iterations", phi.Comment)
 		}
 	}
+	// a walk that does something per entry and can stop early without failing (break, or a non-error return) has processed the
+	// entries that happened to come first in this process's map order, and only those
+	if at := earlyLoopExit(header); at != nil {
+		for _, b := range fn.Blocks {
+			if !inLoop(b) {
+				continue
+			}
+			for _, in := range b.Instrs {
+				if c, ok := in.(ssa.CallInstruction); ok {
+					if _, isB := c.Common().Value.(*ssa.Builtin); !isB {
+						site := p.Pos(c.Pos())
+						return "the walk can stop early without failing, after having processed (" + clip(calleeName(c.Common()), 60) + " at " + site + ") only the entries that came first in map order"
+					}
+				}
+			}
+		}
+	}
 	for _, b := range fn.Blocks {
 		if !inLoop(b) {
 			continue
